@@ -1938,7 +1938,9 @@ class PGPKey(Armorable, ParentRef, PGPObject):
             # RFC 4880 says that primary keys *must* be capable of certification
             return {KeyFlags.Certify} | (user.selfsig.key_flags if user.selfsig else set())
 
-        return next(reversed(list(self.self_signatures))).key_flags
+        # a subkey that has no binding signature in effect (none at all, or all expired) grants no capability
+        bsig = next(reversed(list(self.self_signatures)), None)
+        return bsig.key_flags if bsig is not None else set()
 
     def _sign(self, subject, sig, **prefs):
         """
